@@ -46,7 +46,7 @@ inductive Frame
   | mgrStart                                                  -- chart.run / DAG.run / manager.run not started
   | mgrWait                                                   -- manager.run: cond['run']
   | dagInit (d : DagRef)                                      -- _run_dag entry
-  | dagLaunch (d : DagRef) (rest : List Node) (locals : List Nat)   -- cond[rest.head]
+  | dagLaunch (d : DagRef) (rest : List Node)                 -- cond[rest.head]
   | dagWaitDest (d : DagRef)                                  -- cond[dag.dest]
   | node (d : DagRef) (n : Node) (force : Bool) (pc : NodePc) -- _run_node / _execute_node / __execute_node
   | switchStart (d : DagRef) (n : Node)                       -- _run_switch entry
@@ -336,19 +336,19 @@ def launchFrame (P : Program) (d : DagRef) (n : Node) : Frame :=
   else .node d n false .start
 
 /-- `_run_dag`: the launch loop (manager.py 487–515) -/
-def dagLaunch (c : Ctx) (d : DagRef) (below : List Frame) : St → List Obs → List Node → List Nat → Out
-  | s, obs, [], _ => dagWaitDest c s obs d below
-  | s, obs, n :: rest, locals =>
+def dagLaunch (c : Ctx) (d : DagRef) (below : List Frame) : St → List Obs → List Node → Out
+  | s, obs, [] => dagWaitDest c s obs d below
+  | s, obs, n :: rest =>
     if ready c.P s d n then
       if d.isOneof && hasError s d then
-        let s := cancelTasks s locals
+        -- (fix e9268a6: the tasks started for this sub-DAG are no longer cancelled here)
         let s := notifyAll s ((c.P.g.desc1 n).map Key.node)
         let s := notify s d.destKey
         retTo c s obs below .none
       else
         let (s, tid) := spawn s [launchFrame c.P d n] (.node n)
-        dagLaunch c d below s (obs ++ [.spawn tid (.node n)]) rest (locals ++ [tid])
-    else block c s obs (.dagLaunch d (n :: rest) locals :: below) (.cond (.node n))
+        dagLaunch c d below s (obs ++ [.spawn tid (.node n)]) rest
+    else block c s obs (.dagLaunch d (n :: rest) :: below) (.cond (.node n))
 
 /-- `_run_dag` entry (manager.py 474–485) -/
 def dagInit (c : Ctx) (s : St) (obs : List Obs) (d : DagRef) (below : List Frame) : Out :=
@@ -357,17 +357,19 @@ def dagInit (c : Ctx) (s : St) (obs : List Obs) (d : DagRef) (below : List Frame
   let s := if d.isRec then s.hide c.ord else s
   match c.ord with
   | [] => retTo c s obs below .none
-  | ord => dagLaunch c d below s obs ord []
+  | ord => dagLaunch c d below s obs ord
 
 /-- `_run_node` after `_execute_node` returned `v` (manager.py 630–649) and the `finally` -/
-def nodePost (c : Ctx) (s : St) (obs : List Obs) (d : DagRef) (n : Node) (below : List Frame) (v : Val) : Out :=
+def nodePost (c : Ctx) (s : St) (obs : List Obs) (d : DagRef) (n : Node) (below : List Frame) (v : Val)
+    (executedHere : Bool := true) : Out :=
   let (s, obs, unlock) :=
     if v.isRecur then
       let (s, tid) := spawn s [.recStart d n v] (.recur n)
       (s, obs ++ [.spawn tid (.recur n)], false)
     else (s, obs, true)
   let s := s.setRes n v
-  let obs := obs ++ [.save n v]
+  -- fix c29fd0e: only a real value is saved, and only by the task that executed the node
+  let obs := if executedHere && !v.isRecur && !v.isExc then obs ++ [.save n v] else obs
   let s := nodeFinally c.P s d n unlock
   retTo c s obs below .none
 
@@ -418,7 +420,7 @@ def nodeAttempt (c : Ctx) (s : St) (obs : List Obs) (d : DagRef) (n : Node) (for
 /-- `_run_node` / `_execute_node` entry (manager.py 309–326) -/
 def nodeStart (c : Ctx) (s : St) (obs : List Obs) (d : DagRef) (n : Node) (force : Bool) (below : List Frame) : Out :=
   if s.procExists n then
-    if s.evSet n then nodePost c s obs d n below (s.get n)
+    if s.evSet n then nodePost c s obs d n below (s.get n) false
     else block c s obs (.node d n force .evWait :: below) (.event n)
   else
     let inv := s.invCount n
@@ -587,10 +589,10 @@ def stepTask (c : Ctx) (s : St) : Option Out :=
         | [.mgrStart], _ => some (mgrStart c s [])
         | [.mgrWait], _ => some (mgrCheck c s [])
         | .dagInit d :: below, _ => some (dagInit c s [] d below)
-        | .dagLaunch d rest locals :: below, _ => some (dagLaunch c d below s [] rest locals)
+        | .dagLaunch d rest :: below, _ => some (dagLaunch c d below s [] rest)
         | .dagWaitDest d :: below, _ => some (dagWaitDest c s [] d below)
         | .node d n force .start :: below, _ => some (nodeStart c s [] d n force below)
-        | .node d n _ .evWait :: below, _ => some (nodePost c s [] d n below (s.get n))
+        | .node d n _ .evWait :: below, _ => some (nodePost c s [] d n below (s.get n) false)
         | .node d n force (.body k kw inv) :: below, .body o => some (nodeAfterBody c s [] d n force below k kw inv o)
         | .node d n force (.sleep k kw inv) :: below, _ => some (nodeAttempt c s [] d n force below (k + 1) kw inv)
         | .switchStart d n :: below, _ => some (switchStart c s [] d n below)
